@@ -181,6 +181,64 @@ def scaled_tok(x, d):
     return "-0" if n == 0 and math.copysign(1.0, x) < 0 else str(n)
 
 
+def shortest(x):
+    """(neg, digits, e10): the shortest decimal digits * 10^e10 that float() rounds to |x| (the closest to |x| among the
+    shortest) - what float.__repr__ promises to print - found by exact rational arithmetic, independently of repr();
+    digits has no trailing zero; 0.0 -> (False, 0, 0), -0.0 -> (True, 0, 0)"""
+    import math
+    neg = math.copysign(1.0, x) < 0
+    a = abs(x)
+    if a == 0:
+        return neg, 0, 0
+    X = Fraction(a)
+    e = len(str(X.numerator)) - len(str(X.denominator))
+    if Fraction(10) ** e > X:
+        e -= 1
+    while Fraction(10) ** (e + 1) <= X:
+        e += 1
+    for p in range(1, 18):
+        sc = Fraction(10) ** (e - p + 1)
+        m = X / sc
+        lo = m.numerator // m.denominator
+        best = None
+        for c in (lo, lo + 1):
+            if c <= 0:
+                continue
+            v = Fraction(c) * sc
+            try:
+                fv = float(v)
+            except OverflowError:
+                fv = float("inf")
+            if fv == a:
+                dist = abs(v - X)
+                if best is None or dist < best[0] or (dist == best[0] and c % 2 == 0):
+                    best = (dist, c)
+        if best is not None:
+            c, e10 = best[1], e - p + 1
+            while c % 10 == 0:
+                c //= 10
+                e10 += 1
+            return neg, c, e10
+    raise AssertionError("no 17-digit decimal rounds to %r" % x)
+
+
+def snum_common(vals, q):
+    """the floats `vals` of a case as protocol tokens on a common decimal lattice: (d, tokens) with value = +-mag / 10^d.
+    q = k: vals are integers on the 10^-k lattice (at most 15 significant digits: the decimal is the shortest repr);
+    q = None: vals are arbitrary finite floats, given by their shortest round-trip decimals"""
+    if q is not None:
+        return q, [str(int(v)) for v in vals]
+    sh = [shortest(float(v)) for v in vals]
+    d = max([0] + [-e10 for _, _, e10 in sh])
+    return d, [("-" if neg else "") + str(c * 10 ** (e10 + d)) for neg, c, e10 in sh]
+
+
+# floats at the places where str(float) changes its layout
+SWITCH_FLOATS = [1e-4, 0.00009999999999999999, 1e-5, 1.9290316747799796e-05, -4.262146191535976e-12, 5e-324, 2.2250738585072014e-308,
+                 1e16, 9999999999999998.0, 1.0000000000000002e16, 1.5e22, 1e22, 1e23, 123456789012345680.0, 1.7976931348623157e308,
+                 0.0, -0.0, 5.0, -1.0, 100.0, 1e15, 0.1, 0.30000000000000004, 2.0 ** 53, 2.0 ** -20]
+
+
 class P(Prop):
     id = "C13"
     design_ref = "DESIGN.md section 5, C13"
@@ -197,24 +255,35 @@ class P(Prop):
         (M, "TV.C13.csv_header_block_roundtrip", "reader side of the header option: `header` first lines of any content, comment lines, then the data lines are read as exactly the observations"),
         (M, "TV.C13.writeToCsv_roundtrip", "the front end TrackWriter.writeToCsv(track, path, TrackFormat) writes what writeToFile writes with the format's ids, separator and header: the file is read back as the same observations"),
         (M, "TV.C13.writeToCsv_collection_roundtrip", "writeToCsv(collection, dir, TrackFormat) = writeToFiles: one file per track, each read back as its track"),
+        (M, "TV.C13.writeToFile_default_roundtrip", "writeToFile(track, path) with every other argument at its default (E column 0, N column 1, ',', no header) is read back by the matching readFromCsv(path, 0, 1)"),
+        (M, "TV.C13.readFromCsv_dir_roundtrip", "after writeToCsv(collection, dir, format), readFromCsv(dir, ...) returns the tracks of the files in whatever order the listing delivers them, each with all its observations (empty tracks skipped)"),
         (M, "TV.C13.csv_read_all_roundtrip", "feature columns: a file written with its header block and af_names, values of any kind (int, float, str, nan, inf), is read back by readFromCsv(h=0|1|2, read_all=True) as the same observations, the same feature names in order, and per observation the values expAF(name, value)"),
-        (M, "TV.C13.read_all_values", "what expAF is: int -> the same number, float n/10^d -> the printed decimal (value n/10^d), nan/inf -> themselves, a non-numeric string without quotes -> itself; names ending in & keep the text; ints and floats are always writable as one column"),
+        (M, "TV.C13.read_all_values", "what expAF is: int -> the same number, float n/10^d of ANY magnitude -> the decimal str() printed, positional or in exponent notation (value n/10^d, exactly), nan/inf -> themselves, a non-numeric string without quotes -> itself; names ending in & keep the text; ints are always writable as one column, floats when the separator is not a number character, e or +"),
         (M, "TV.C13.time_roundtrip", "readTimestamp(str(t)) gives back the fields named by a format of distinct full-width codes, for every stamp that fits the widths"),
         (M, "TV.C13.time_roundtrip_suffix", "the same when text follows the printed stamp (the Z of a GPX <time>)"),
         (M, "TV.C13.time_roundtrip_full", "with the six calendar codes the calendar part is read back identically"),
         (M, "TV.C13.fits_of_wf", "every well-formed ObsTime before year 10000 fits the widths"),
-        (M, "TV.C13.wkt_roundtrip", "parseWkt(track.toWKT()) returns the same vertices in the same order for every non-empty lattice track in ENU, Geo or ECEF coordinates"),
-        (M, "TV.C13.repr_value", "float(str(n/10^d)) has the value n/10^d (trailing zeros trimmed)"),
+        (M, "TV.C13.wkt_roundtrip", "parseWkt(track.toWKT()) returns the same vertices in the same order for every non-empty track in ENU, Geo or ECEF coordinates whose ordinates are ANY finite floats: negative zero, integer-valued, 17 digits, below 1e-4 / from 1e16 where str(float) prints the exponent notation"),
+        (M, "TV.C13.wkt_vertex_value", "each vertex parsed back has exactly the planimetric coordinates written (mantissa/10^decimals = +-mag/10^d, cross-multiplied) and third coordinate 0"),
+        (M, "TV.C13.wkt_upper", "what parseWkt works on: wkt.upper() of the exported text is the same text with the exponent marker E"),
+        (M, "TV.C13.polygon_parse", "a one-ring POLYGON((x y,...)) text with ordinates as str(float) prints them is parsed by parseWkt as the vertices of its ring, in order"),
+        (M, "TV.C13.wkt_file_roundtrip", "tracks exported with toWKT and stored one per line (uid, tid, quoted WKT text; optional header line and blank lines) are read back by readFromWkt(path, 2, 0, 1, sep, h, doublequote) as the same tracks in order: ids and every vertex"),
+        (M, "TV.C13.repr_value", "float(str(x)) for x = +-mag/10^d of any magnitude: the text (positional, or exponent notation with e / E) is accepted by float() and the decimal read back has the value written"),
+        (M, "TV.C13.float_exponent_form", "float() of any literal [-]d[.ddd](e|E)(+|-)xx is the decimal digits/10^(n-1) * 10^xx"),
         (M, "TV.C13.network_row_roundtrip", "an edge line written by writeToCsv is split by csv.reader into its five fields and rebuilt by readLineAndAddToNetwork as the same edge"),
         (M, "TV.C13.net_file_roundtrip", "whole network file: h=1/header=1 and h=0/header=0 both return all edges in order"),
         (M, "TV.C13.gpx_file_roundtrip", "the body writeToGpx writes for a track is read by the trk scanner, with an ISO read format, as one track with the same points in order (elevation only for geographic coordinates)"),
+        (M, "TV.C13.gpx_collection_roundtrip", "writeToGpx(collection, file) - oneFile=True, the default - writes one <trk> per track; the file is read back as the same number of tracks in the same order, each with its points in order"),
         (M, "TV.C13.gpx_af_file_roundtrip", "the same for writeToGpx(af=True): the reader skips the <extensions> block of every point (one <name>value</name> line per feature, none of which closes the block itself), the points come back unchanged whatever the features are called"),
         (M, "TV.C13.gpx_af_names_ok", "every feature name without < > newline, not starting with / and other than 'extensions', with a value text without < and newline, is fine for gpx_af_file_roundtrip - time, ele, trk, trkpt included"),
         (M, "TV.C13.reread_roundtrip", "a timestamp text read under ANY lossless read format f2 gives the stamp whose text under f2 it is - whatever format it was printed with and whatever was read before (the oracle clause of the reread / twin-format sessions)"),
         (M, "TV.C13.gpx_read_formats", "'4Y-2M-2DT2h:2m:2s' with or without Z reads the stamps the GPX writer prints, calendar part unchanged"),
-        (M, "TV.C13.written_precision_partial", "on the decimal lattice the printed coordinate and what float() reads denote the same number (format()'s rounding of arbitrary doubles not covered)"),
+        (M, "TV.C13.written_precision_partial", "the written precision is that of the text: the fixed-point text of CSV / GPX and the str(float) text of WKT (any magnitude, e or E) are read back by float() as exactly the decimal printed (format()'s rounding of arbitrary doubles and repr's choice of the shortest digits not covered)"),
     ]
-    partial = ["written_precision_partial: proves exact read-back on the 10^-d lattice; missing: Python's format()/float() rounding on arbitrary doubles (sampled: 'fix' stream, byte-for-byte file comparison, off-lattice tracks)"]
+    partial = ["written_precision_partial: proves that the decimal read back is the decimal printed, for the fixed-point formats and for str(float) over its whole range; "
+               "missing: Python's format() rounding on arbitrary doubles, repr()'s choice of the shortest round-trip digits and float()'s correctly rounded conversion "
+               "(sampled: 'fix' stream, byte-for-byte file comparison, off-lattice tracks, the full-range WKT / network / feature streams whose digits the harness "
+               "computes by exact rational arithmetic)"]
     open_statements = ["sessions: every operation of a session is modelled on its own, with the read / print formats in force when it runs (they move with the setfmt "
                        "operations and mid_print); the hidden state of the library (class-level formats, memo tables, counters) is not part of the model: that no call "
                        "leaves such state behind is checked by the session streams (global formats compared after every library call, the same texts read under twin "
@@ -222,28 +291,43 @@ class P(Prop):
                        "the string-level find/replace loops of ObsTime.__str__ and __precompileReadFmt are modelled on the tokenised format (codes recognised left to right); "
                        "equivalence with the string algorithm for formats whose literals are not code letters is checked by correspondence only",
                        "read_all: proved for reader header counts 0, 1, 2; hr = 3 (the names line consumed by the header loop, with its newline) is covered by "
-                       "correspondence only; float() of exponent forms / digit-group underscores in a feature column is outside the model (the generator avoids them)",
-                       "TrackReader.parseWkt on POLYGON / MULTIPOLYGON texts (never written by tracklib) is modelled and compared on hand-made texts, without a theorem",
-                       "readFromCsv's no_data_value and com arguments keep their defaults (-999999, '#'); `com` is ignored by the library anyway (TrackFormat reads the key 'cmt')"]
+                       "correspondence only; float() of digit-group underscores (1_000) and of exponents beyond the double range (1e400 -> inf) is outside the "
+                       "model (the generators avoid them)",
+                       "TrackReader.parseWkt on POLYGON texts (never written by tracklib): the canonical one-ring layout has the theorem polygon_parse; polygons with "
+                       "holes, stray blanks, z values and the MULTIPOLYGON branch (AttributeError) are modelled and compared on hand-made texts only",
+                       "readFromCsv's no_data_value and com arguments keep their defaults (-999999, '#'); `com` is ignored by the library anyway (TrackFormat reads the key 'cmt')",
+                       "formats given by NAME (writeToFile(track, path, 'RTKLIB'), readFromFile(path, 'RTKLIB'): resources/track_file_format) are outside the model: their "
+                       "separators have several characters (`bb`) or their timestamps are seconds since a reference epoch (date_ini)",
+                       "TrackReader.readFromWkt is modelled for every column order, bare or quoted WKT texts, header counts and both doublequote values (stream wktfile); "
+                       "the theorem wkt_file_roundtrip covers the layout uid, tid, quoted WKT; its selector / bboxFilter arguments keep their defaults"]
     modelled = ("TrackWriter.writeToFile (O list, sort, __printInOrder, float formats, feature columns with int / float / str / nan / inf values), "
                 "TrackReader.__readFromCsv (data loop, header/comment skipping, field extraction, no-data rule; read_all: name_non_special through the "
                 "header and comment lines, feature creation from the last line's fields, the second pass with its raw first line, float()/str values, names "
                 "ending in &), ObsTime.__str__/__precompileReadFmt/readTimestamp/__fillMember "
                 "(tokenised format, no '*' wildcard), NetworkWriter.writeToCsv, NetworkReader.readFromFile + readLineAndAddToNetwork + "
                 "wktLineStringToObs + Network.addNode order (first registration of a node id wins, whatever the later end vertices), Track.toWKT (ENU, Geo, "
-                "ECEF), TrackWriter.writeToCsv (track -> writeToFile, collection -> writeToFiles), TrackReader.parseWkt (POLYGON, LINESTRING, the MULTIPOLYGON branch's AttributeError), TrackWriter.writeToGpx body "
+                "ECEF; ordinates printed by str(float) = float.__repr__'s layout rule over the whole range: positional, exponent notation below 1e-4 and from 1e16, "
+                "-0.0, 5.0), float() on decimal literals with an exponent part (e / E, signed exponent), TrackWriter.writeToCsv (track -> writeToFile, collection -> writeToFiles), TrackReader.parseWkt (POLYGON, LINESTRING, the MULTIPOLYGON branch's AttributeError), TrackWriter.writeToGpx body "
                 "with and without af=True (<extensions> block), "
                 "TrackReader.__readFromGpx (type trk: the <extensions> block skipped, then the per-tag steps gpxPt/gpxEndPt/gpxEle/gpxTime); the header block of writeToFile (h > 0: #srid, #ref point, #column names + feature names; no Reference epoch line, fmt.time_ini stays -1)")
     trusted = ["Python's format()/repr()/float()/int() on the decimal lattice are modelled by an own decimal printer/parser; the rounding done by format() on "
-               "off-lattice floats is computed by the harness with exact rational arithmetic and handed to the model",
+               "off-lattice floats, and the shortest round-trip digits repr() chooses for an arbitrary double, are computed by the harness with exact rational "
+               "arithmetic (`scaled`, `shortest`) and handed to the model, which lays them out (float.__repr__'s rule) and reads them back",
                "csv.reader is modelled as its documented state machine (delimiter, doublequote); file system calls are trusted"]
     rule = ("exhaustive: every column layout (24+6+6+2 id permutations) x separators , ; blank x h in {0,1} (header block written / not, read with the same h) x ENU/GEO/ECEF; "
             "writer h in {1,2,3} x reader header 0..5 (correspondence); random tracks of 1-6 fixes with "
             "negative / 1e6-large / many-decimal coordinates on and off the 1 mm / 1e-8 deg lattice, timestamps at midnight, month, year ends and leap days; "
             "time formats; feature columns (0-3, int / float / str / nan values, names incl. `k&`, `time`, `ele`) read back with read_all for writer h 0-3 x reader header 0-4; "
-            "the front end writeToCsv on a track and on a collection (one file per track); GPX write/read, 40 % with af=True (feature names incl. time, ele, trk, trkpt); networks of 1-5 edges, three orientations, 2-5 vertices, ids that are numeric strings, user weights, half of them NOT "
-            "topologically exact (edges sharing a node id end up to a few units beside the node's registered position; self loops); WKT (ENU, Geo, ECEF) and hand-made "
-            "POLYGON / LINESTRING / MULTIPOLYGON texts; sessions of 2-6 operations (CSV, GPX to one file, GPX to one file per track in a directory, network, WKT, "
+            "a tenth of the CSV / GPX / network files written onto an existing, longer file of the same kind (the writers must replace it); the front end writeToCsv on a track and on a collection (one file per track, read back file by file AND through readFromCsv(<directory>), compared as a "
+            "multiset of tracks: the listing order is the file system's); writeToFile(track, path) with default arguments read back by readFromCsv(path, 0, 1); "
+            "collections of 1-4 tracks written to ONE gpx file; GPX write/read, 40 % with af=True (feature names incl. time, ele, trk, trkpt); networks of 1-5 edges, three orientations, 2-5 vertices, ids that are numeric strings, user weights, half of them NOT "
+            "topologically exact (edges sharing a node id end up to a few units beside the node's registered position; self loops), a quarter of them with vertices "
+            "from the whole float range (up to 1e60: edge lengths are squared); WKT (ENU, Geo, ECEF): half on the 1 mm / 1e-8 deg lattice (1e-08 is printed in exponent "
+            "notation), half any finite floats - exponent notation on both sides (1e-5 .. 5e-324, 1e16 .. 1.8e308), the values next to the two switches, the residues a "
+            "projection leaves on a point due east / north of its base (1.9e-05, -4.3e-12), -0.0, integer-valued, 17 significant digits, each layout as E and as N in "
+            "the three coordinate systems; a third of the off-lattice CSV / GPX coordinates and a quarter of the float feature values from the same classes; exported tracks stored one per line in a csv "
+            "file (uid, tid, WKT text bare or quoted, the six column orders, header line, blank lines, reader header counts 0-5) read back by readFromWkt; hand-made "
+            "POLYGON / LINESTRING / MULTIPOLYGON texts, a fifth of their ordinates in exponent form, well formed or not; sessions of 2-6 operations (CSV, GPX to one file, GPX to one file per track in a directory, network, WKT, "
             "timeWithZone, KML, readTimestamp / ObsTime(str)) sharing the global ObsTime formats - set once at the start, or changed by the user between operations "
             "(setfmt), between the write and the read of one file (mid_print), with twin formats (same literals and widths, two-character codes permuted) whose files hold "
             "the very same timestamp texts, files read by 2-3 readers; reread: one text under a sequence of read formats. Every multi-operation case runs in a child "
@@ -260,6 +344,18 @@ class P(Prop):
         self.Network, self.Node, self.Edge = Network, Node, Edge
         self.TW, self.TR, self.NW, self.NR, self.NF = TrackWriter, TrackReader, NetworkWriter, NetworkReader, NetworkFormat
         self.tmp = tempfile.gettempdir()
+
+    STALE = {"csv": "7.5;7.5;7.5;7.5\n7.5,7.5,7.5,7.5\n7.5 7.5 7.5 7.5\n7.5|7.5|7.5|7.5\n7.5\t7.5\t7.5\t7.5\n",
+             "net": "zz,a,b,0,\"LINESTRING(0.0 0.0,1.0 1.0)\"\nzz;a;b;0;\"LINESTRING(0.0 0.0,1.0 1.0)\"\n",
+             "gpx": "    <trk>\n        <trkseg>\n            <trkpt lat=\"1.00000000\" lon=\"2.00000000\">\n                <ele>3.00000000</ele>\n"
+                    "                <time>2001-02-03T04:05:06Z</time>\n            </trkpt>\n        </trkseg>\n    </trk>\n"}
+
+    def put_stale(self, case, path, kind):
+        """the target of the writer already exists and holds an older, longer file of the same kind (`stale` cases): a
+        writer that appended to it or overwrote only its beginning would leave observations that were never written"""
+        if case.get("stale"):
+            with open(path, "w", newline="") as fh:
+                fh.write(self.STALE[kind] * 60)
 
     def tmpfile(self, ext):
         """one scratch file per process, removed after every case (no directory is left behind by pool workers)"""
@@ -278,7 +374,7 @@ class P(Prop):
     def exhaustive_scopes(self, tier):
         return ["all 38 column layouts (id_E,id_N[,id_U][,id_T] a permutation of 0..k-1) x separators {',', ';', ' '} x h in {0,1} x {ENU, GEO, ECEF}, "
                 "%d random tracks each" % (2 if tier == "quick" else 8),
-                "sessions: every operation kind in {csv, gpx one file, gpx one file per track, network, wkt, timeWithZone, kml} (and, for the default and the ISO "
+                "sessions: every operation kind in {csv, gpx one file, gpx one file per track, gpx collection in one file, network, wkt, timeWithZone, kml} (and, for the default and the ISO "
                 "format%s, every ordered pair of kinds) followed by a CSV round trip, under each of the %d session time formats; for each of them %d twin-format "
                 "sessions (the second file holds the texts of the first, read under the permuted format)" % (
                     "" if tier == "quick" else " and all the others", len(CSV_FMTS), 40 if tier == "quick" else 400),
@@ -312,6 +408,40 @@ class P(Prop):
         return rng.choice([rng.uniform(-1e6, 1e6), rng.uniform(-100, 100), rng.uniform(-1, 1), rng.uniform(-2e-3, 2e-3),
                            rng.randrange(-1000, 1000) + rng.choice([0.0005, 0.0625, 0.5, 0.125, 0.4995, 0.9995, 0.99951])])
 
+    def rand_wide(self, rng, srid, axis, cap=None):
+        """a float from the whole range of magnitudes and shapes str(float) renders differently: below 1e-4 and from 1e16
+        (exponent notation), negative zero, integer-valued, 17 significant digits, the values next to the two switches,
+        the residues a projection leaves on a point due east / north of its base (1.9e-05, -4.3e-12); geographic
+        longitudes / latitudes stay inside their range (a meridian or a parallel within 1e-4 degree of zero); `cap` bounds the
+        magnitude where the library squares coordinates (edge lengths of a network: x ** 2 raises OverflowError beyond 1e154)"""
+        geo = srid == "GEO" and axis < 2
+        lim = [180.0, 90.0][axis] if geo else None
+        sgn = rng.choice([1.0, -1.0])
+        r = rng.random()
+        if r < 0.30:        # exponent notation, small side
+            x = rng.choice([rng.uniform(1, 10) * 10.0 ** -rng.randrange(5, 25), rng.uniform(-1, 1) * 1e-4,
+                            float(Fraction(rng.randrange(1, 10 ** rng.choice([1, 2, 5])), 10 ** rng.randrange(5, 40))),
+                            rng.uniform(1, 10) * 10.0 ** -rng.randrange(25, 320), 5e-324 * rng.randrange(1, 1000)])
+        elif r < 0.45 and not geo:      # exponent notation, large side
+            x = rng.choice([rng.uniform(1, 10) * 10.0 ** rng.randrange(16, 30), float(10 ** rng.randrange(16, 40)),
+                            float(rng.randrange(10 ** 16, 10 ** 18)), rng.uniform(1, 10) * 10.0 ** rng.randrange(30, 308)])
+        elif r < 0.60:
+            x = rng.choice(SWITCH_FLOATS)
+            if geo and abs(x) > lim:
+                x = rng.choice([0.0, -0.0, 1e-5, 5.0])
+        elif r < 0.72:      # integer-valued
+            x = float(rng.randrange(0, 10 ** rng.choice([1, 3, 6, 15]))) if not geo else float(rng.randrange(0, int(lim) + 1))
+        elif r < 0.80:
+            x = 0.0
+        else:               # many digits
+            x = rng.uniform(0, lim) if geo else rng.choice([rng.uniform(0, 1e6), rng.uniform(0, 100), rng.uniform(0, 1), rng.uniform(0, 1e15)])
+        x = sgn * x
+        if geo:
+            x = max(-lim, min(lim, x))
+        if cap is not None and abs(x) > cap:
+            x = sgn * rng.choice([1e16, 1.5e22, cap, rng.uniform(1, 10) * 1e17])
+        return x
+
     def rand_rows(self, rng, srid, n=None, q="lat"):
         n = n or rng.choice([1, 1, 2, 3, 4, 6])
         if q == "lat":
@@ -319,7 +449,7 @@ class P(Prop):
         rows = []
         for _ in range(n):
             if q is None:
-                c = [self.rand_float(rng, srid, a) for a in range(3)]
+                c = [self.rand_float(rng, srid, a) if rng.random() < 0.7 else self.rand_wide(rng, srid, a) for a in range(3)]
             else:
                 c = [self.rand_coord(rng, srid, a, q) for a in range(3)]
             rows.append(c + self.rand_stamp(rng))
@@ -332,8 +462,10 @@ class P(Prop):
         if r < 0.45:
             d = rng.choice([1, 2, 3, 6])
             n = rng.choice([rng.randrange(-10 ** 7, 10 ** 7), 5, -25, 10 ** d, 123456])
-            if n != 0 and abs(n) < 10 ** (d - 4):      # repr() stays positional
-                n = 10 ** d + n
+            if rng.random() < 0.25:     # str(float) in exponent notation: below 1e-4, from 1e16
+                d, n = rng.choice([(rng.randrange(5, 30), rng.choice([1, 5, -25, 12345, rng.randrange(-10 ** 6, 10 ** 6)])),
+                                   (0, rng.choice([1, -15, 12345, 25]) * 10 ** rng.randrange(16, 30)),
+                                   (rng.randrange(1, 4), rng.randrange(-10 ** 6, 10 ** 6) * 10 ** rng.randrange(16, 24))])
             return ["D", n, d]
         if r < 0.85:
             return ["S", rng.choice(AF_STRS)]
@@ -349,6 +481,8 @@ class P(Prop):
             case["afs"] = [[self.rand_af(rng, rich) for _ in range(naf)] for _ in rows]
         if read_all:
             case["read_all"] = True
+        if rng.random() < 0.1:
+            case["stale"] = True        # the file already exists
         return case
 
     def rand_ident(self, rng):
@@ -361,19 +495,20 @@ class P(Prop):
         map data delivers them), so several edges share a node id while their end vertices differ"""
         srid = srid or rng.choice(["ENU", "ENU", "GEO"])     # (the network reader refuses ECEF: 2D lengths are not defined on it)
         q = 8 if srid == "GEO" else 3
+        wide = rng.random() < 0.25      # vertices from the whole float range (q = None): str(float) in every layout
+        if wide:
+            q = None
         nn = rng.choice([2, 3, 4])
         names = []
         while len(names) < nn:
             s = self.rand_ident(rng)
             if s not in names:
                 names.append(s)
-        ok = lambda p: all(v == 0 or abs(v) >= 10 ** (q - 4) for v in p)    # repr() stays positional
 
         def pt():
-            while True:
-                p = [self.rand_coord(rng, srid, 0, q), self.rand_coord(rng, srid, 1, q)]
-                if ok(p):
-                    return p
+            if wide:
+                return [self.rand_wide(rng, srid, 0, cap=1e60), self.rand_wide(rng, srid, 1, cap=1e60)]
+            return [self.rand_coord(rng, srid, 0, q), self.rand_coord(rng, srid, 1, q)]
         pos = {s: pt() for s in names}
         loose = (rng.random() < 0.5) if loose is None else loose
 
@@ -382,10 +517,14 @@ class P(Prop):
             if not loose or rng.random() < 0.4:
                 return pos[s]
             for _ in range(20):
-                p = [pos[s][0] + rng.choice([0, 1, -1, 7, -250, 400, 1000, -12345]), pos[s][1] + rng.choice([0, 1, -1, -7, 250, -400, 500, 54321])]
+                if wide:
+                    p = [pos[s][0] + rng.choice([0.0, 1e-5, -2.5e-7, 0.25, -3.0]), pos[s][1] + rng.choice([0.0, -1e-5, 1e-12, 0.5, 7.0])]
+                else:
+                    p = [pos[s][0] + rng.choice([0, 1, -1, 7, -250, 400, 1000, -12345]), pos[s][1] + rng.choice([0, 1, -1, -7, 250, -400, 500, 54321])]
                 if srid == "GEO":
-                    p = [max(-180 * 10 ** q, min(180 * 10 ** q, p[0])), max(-90 * 10 ** q, min(90 * 10 ** q, p[1]))]
-                if ok(p) and p != pos[s]:
+                    u = 1 if wide else 10 ** q
+                    p = [max(-180 * u, min(180 * u, p[0])), max(-90 * u, min(90 * u, p[1]))]
+                if p != pos[s]:
                     return p
             return pos[s]
         ne = rng.choice([1, 2, 3, 4, 5])
@@ -400,8 +539,11 @@ class P(Prop):
                 e["w"] = rng.choice([0, 1, 2.5, 1000, -1])        # a weight set by the user (the writer does not write it)
             edges.append(e)
         h = rng.choice([0, 1, 1]) if h is None else h
-        return {"kind": "net", "srid": srid, "q": q, "sep": sep or rng.choice([",", ";", " ", "\t", "|"]), "h": h,
-                "hdrR": h if hdrR is None else hdrR, "posdir": 3, "edges": edges}
+        c = {"kind": "net", "srid": srid, "q": q, "sep": sep or rng.choice([",", ";", " ", "\t", "|"]), "h": h,
+             "hdrR": h if hdrR is None else hdrR, "posdir": 3, "edges": edges}
+        if rng.random() < 0.1:
+            c["stale"] = True
+        return c
 
     # ---- sessions: several operations sharing the global ObsTime formats
     def session_op(self, rng, kind, fmt):
@@ -421,17 +563,12 @@ class P(Prop):
                 rows, q = self.rand_rows(rng, "GEO", n=rng.choice([1, 2, 3]), q=8)
                 tracks.append({"tid": tid, "rows": rows})
             return {"kind": "gpxdir", "srid": "GEO", "q": 8, "tracks": tracks, "rfmt": rng.choice([ISO_FMT, ISO_FMT + "Z"])}
+        if kind == "gpxcoll":
+            return self.gpxcoll_case(rng)
         if kind == "net":
             return self.net_case(rng, sep=rng.choice([",", ";"]), h=1)
         if kind == "wkt":
-            srid = rng.choice(["ENU", "GEO", "ECEF"])
-            q = 8 if srid == "GEO" else 3
-            pts = []
-            while len(pts) < 2:
-                p = [self.rand_coord(rng, srid, 0, q), self.rand_coord(rng, srid, 1, q)]
-                if all(v == 0 or abs(v) >= 10 ** (q - 4) for v in p):
-                    pts.append(p)
-            return {"kind": "wkt", "srid": srid, "q": q, "pts": pts}
+            return self.wkt_case(rng, n=2)
         if kind == "tz":
             return {"kind": "tz", "t": self.rand_stamp(rng)}
         if kind == "time":
@@ -442,7 +579,7 @@ class P(Prop):
             return {"kind": "kml", "srid": srid, "q": q, "rows": rows, "type": rng.choice(["LINE", "POINT"])}
         raise ValueError(kind)
 
-    SESSION_OPS = ["csv", "gpx", "gpxdir", "net", "wkt", "tz", "kml"]
+    SESSION_OPS = ["csv", "gpx", "gpxdir", "gpxcoll", "net", "wkt", "tz", "kml"]
 
     @staticmethod
     def norm(case):
@@ -638,6 +775,12 @@ class P(Prop):
             if rng.random() < 0.3:     # a collection: one file track_output_<i>.csv per track in a directory
                 c["more"] = [self.rand_rows(rng, c["srid"], rng.choice([1, 2]), c["q"])[0] for _ in range(rng.choice([1, 2]))]
             out.append(c)
+        # writeToFile(track, path) with every other argument left at its default, read back by the matching readFromCsv(path, 0, 1)
+        for _ in range(150 if not thorough else 1500):
+            c = self.csv_case(rng, {"E": 0, "N": 1, "U": -1, "T": -1}, ",", 0, rng.choice(SRIDS), q=rng.choice(["lat", "lat", None]),
+                              pfmt=rng.choice(CSV_FMTS), n=rng.choice([1, 2, 3, 5]))
+            c["front"] = "defaults"
+            out.append(c)
         # feature columns with int / float / str / nan values, read back with read_all (the names come from the header block)
         for _ in range(1500 if not thorough else 15000):
             h = rng.choice([1, 1, 1, 1, 2, 3, 0])
@@ -657,6 +800,8 @@ class P(Prop):
                     r[2] = 0 if q is not None else 0.0
             c = {"kind": "gpx", "srid": srid, "q": q, "rows": rows, "rfmt": rng.choice([ISO_FMT, ISO_FMT, ISO_FMT + "Z"]),
                  "tid": rng.choice([0, 7, "trace", "t-1"])}
+            if rng.random() < 0.1:
+                c["stale"] = True
             if rng.random() < 0.4:       # writeToGpx(af=True): an <extensions> block per point
                 naf = rng.choice([0, 1, 2, 3])
                 c["af_names"] = rng.sample(AF_NAMES[:8] + ["time", "ele", "trk", "trkpt", "E"], naf)
@@ -665,6 +810,9 @@ class P(Prop):
         for _ in range(10):
             rows, q = self.rand_rows(rng, "GEO", q=8)
             out.append({"kind": "gpx", "srid": "GEO", "q": q, "rows": rows, "rfmt": DEFAULT_FMT, "tid": 0})
+        # a collection written to ONE gpx file (oneFile=True, the default): one <trk> element per track
+        for _ in range(300 if not thorough else 3000):
+            out.append(self.gpxcoll_case(rng))
         # --- networks
         for sep in (",", ";", " "):
             for h in (0, 1):
@@ -680,20 +828,66 @@ class P(Prop):
             c["posdir"] = -1
             out.append(c)
         # --- WKT
-        for _ in range(1000 if not thorough else 20000):
-            srid = rng.choice(["ENU", "GEO", "ECEF"])
-            q = 8 if srid == "GEO" else 3
-            n = rng.choice([1, 2, 3, 5, 8])
-            pts = []
-            while len(pts) < n:
-                p = [self.rand_coord(rng, srid, 0, q), self.rand_coord(rng, srid, 1, q)]
-                if all(v == 0 or abs(v) >= 10 ** (q - 4) for v in p):
-                    pts.append(p)
-            out.append({"kind": "wkt", "srid": srid, "q": q, "pts": pts})
+        for x in SWITCH_FLOATS:         # every layout of str(float), as E and as N, in the three coordinate systems
+            for srid in ("ENU", "GEO", "ECEF"):
+                if srid != "GEO" or abs(x) <= 90:
+                    out.append({"kind": "wkt", "srid": srid, "q": None, "pts": [[x, 12.5], [3.25, x]]})
+        for _ in range(1500 if not thorough else 20000):
+            out.append(self.wkt_case(rng))
+        # exported tracks stored one per line in a csv file and read back by readFromWkt
+        for _ in range(400 if not thorough else 4000):
+            out.append(self.wktfile_case(rng))
         # WKT texts as other tools write them, parsed by TrackReader.parseWkt (reader only): polygons, z values, blanks, case
         for _ in range(400 if not thorough else 4000):
             out.append(self.wktp_case(rng))
         return out
+
+    def gpxcoll_case(self, rng):
+        srid = rng.choice(["GEO", "GEO", "GEO", "ENU"])
+        q = rng.choice([8, 8, None]) if srid == "GEO" else rng.choice([3, None])
+        tids = rng.sample(["a", "b", "c", 11, 12, "t-1", 0], rng.choice([1, 2, 2, 3, 4]))
+        tracks = []
+        for tid in tids:
+            rows = self.rand_rows(rng, srid, n=rng.choice([1, 2, 3]), q=q)[0]
+            if srid != "GEO":
+                for r in rows:
+                    r[2] = 0 if q is not None else 0.0
+            tracks.append({"tid": tid, "rows": rows})
+        c = {"kind": "gpxcoll", "srid": srid, "q": q, "tracks": tracks, "rfmt": rng.choice([ISO_FMT, ISO_FMT, ISO_FMT + "Z"])}
+        if rng.random() < 0.1:
+            c["stale"] = True
+        return c
+
+    def wkt_case(self, rng, n=None):
+        """a track exported by toWKT and parsed back: vertices on the 1 mm / 1e-8 degree lattice (its small values, 1e-08 ...,
+        are printed in exponent notation), or any finite floats (q = None)"""
+        srid = rng.choice(["ENU", "GEO", "ECEF"])
+        n = n or rng.choice([1, 2, 3, 5, 8])
+        if rng.random() < 0.5:
+            q = 8 if srid == "GEO" else 3
+            pts = [[self.rand_coord(rng, srid, 0, q), self.rand_coord(rng, srid, 1, q)] for _ in range(n)]
+        else:
+            q = None
+            pts = [[self.rand_wide(rng, srid, 0), self.rand_wide(rng, srid, 1)] for _ in range(n)]
+        return {"kind": "wkt", "srid": srid, "q": q, "pts": pts}
+
+    def wktfile_case(self, rng):
+        """tracks exported by toWKT, written by the user one per line into a csv file (user id, track id, WKT text - in
+        double quotes or bare - in any column order, with or without a header line and blank lines) and read back by
+        TrackReader.readFromWkt"""
+        nt = rng.choice([1, 2, 3])
+        tracks = []
+        for i in range(nt):
+            c = self.wkt_case(rng, n=rng.choice([1, 2, 3, 4]))
+            tracks.append({"uid": rng.choice(["u1", "7", "alice", "x-%d" % i, "0042"]), "tid": rng.choice(["t%d" % i, str(i), "run_%d" % i, "1e3"]),
+                           "pts": c["pts"] if c["q"] is None else [[cval(v, c["q"]) for v in p] for p in c["pts"]]})
+        pos = rng.sample([0, 1, 2], 3)       # positions of the wkt, user and track columns in the file
+        quoted = rng.random() < 0.6
+        sep = rng.choice([";", ";", "|", "\t"] + ([",", " "] if quoted else []))
+        hdr = rng.choice([0, 0, 1])
+        return {"kind": "wktfile", "tracks": tracks, "sep": sep, "hdr": hdr, "hdrR": hdr if rng.random() < 0.9 else rng.choice([0, 1, 2, 5]),
+                "quoted": quoted, "dq": rng.random() < 0.3, "blank": rng.random() < 0.2, "pw": pos[0], "pu": pos[1], "pt": pos[2],
+                "iu": pos[1] if rng.random() < 0.8 else -1, "it": pos[2] if rng.random() < 0.8 else -1}
 
     def wktp_case(self, rng):
         from fractions import Fraction as F
@@ -701,6 +895,9 @@ class P(Prop):
 
         def num():
             v = rng.choice([rng.randrange(-10 ** 6, 10 ** 6), 0, 5, -25, 1000])
+            if rng.random() < 0.2:      # exponent forms as other tools (and str(float)) write them, well formed or not
+                return rng.choice(["1e-05", "2.5E+3", "1e5", "-3.25e-7", "1.9290316747799796e-05", "5e-324", "1E16", ".5e1", "5.e-1", "+1e+2",
+                                   "1e", "e5", "1e+", "1.5e2.5", "1e-", "1ee5", "1.e", "-e1"])
             return repr(float(F(v, 10 ** q))) if rng.random() < 0.8 else str(v // 10 ** q)
         n = rng.choice([1, 2, 3, 4, 6])
         vs = [" ".join(num() for _ in range(rng.choice([2, 2, 2, 3, 1, 4]))) for _ in range(n)]
@@ -728,6 +925,7 @@ class P(Prop):
             t["lattice"] = case["q"] is not None
             t["domain"] = self.csv_domain(case) is None
             t["read_all"] = bool(case.get("read_all"))
+            t["front"] = case.get("front", "writeToFile") + ("(collection)" if case.get("more") else "")
         if k in ("net",):
             t["sep"] = case["sep"]; t["h"] = case["h"]; t["edges"] = len(case["edges"])
             t["exact_topology"] = self.net_exact(case)
@@ -736,6 +934,12 @@ class P(Prop):
             t["extensions"] = "af_names" in case
         if k == "time":
             t["fmt"] = case["pfmt"]
+        if k in ("csv", "gpx", "gpxcoll", "net"):
+            t["file_exists"] = bool(case.get("stale"))
+        if k == "wkt":
+            t["srid"] = case["srid"]
+            t["floats"] = case["q"] is None
+            t["exponent_notation"] = any(v != 0 and (abs(cval(v, case["q"])) < 1e-4 or abs(cval(v, case["q"])) >= 1e16) for p in case["pts"] for v in p)
         if k == "session":
             t["ops"] = "-".join(o["kind"] for o in case["ops"])
             t["fmt"] = case["fmt"]
@@ -766,11 +970,11 @@ class P(Prop):
             return any(any(any(p) for p in e["geom"]) for e in case["edges"])
         if k == "wkt":
             return any(any(p) for p in case["pts"])
-        if k == "wktp":
+        if k in ("wktp", "wktfile"):
             return True
         if k == "session":
             return any(self.nontrivial(o) for o in case["ops"])
-        if k == "gpxdir":
+        if k in ("gpxdir", "gpxcoll"):
             return True
         return True
 
@@ -812,7 +1016,7 @@ class P(Prop):
                     if b != c:
                         self.leaks.append([name, what, b, c])
 
-    ISOLATED = ("session", "reread", "gpxdir")
+    ISOLATED = ("session", "reread", "gpxdir", "gpxcoll")
     _runner = None       # (owner pid, child pid, pipe to the child, pipe from the child)
 
     def impl(self, case):
@@ -1006,6 +1210,39 @@ class P(Prop):
         finally:
             shutil.rmtree(d, True)
 
+    def impl_gpxcoll(self, case):
+        """writeToGpx(collection, file.gpx) - oneFile=True, the default - then readFromGpx(file.gpx)"""
+        T = self.ObsTime
+        if not self.ambient:
+            T.setPrintFormat(DEFAULT_FMT)
+        pf0 = T.getPrintFormat()
+        coll = self.TrackCollection()
+        for tr in case["tracks"]:
+            trk = self.mk_track(case["srid"], tr["rows"], case["q"])
+            trk.tid = tr["tid"]
+            coll.addTrack(trk)
+        path = self.tmpfile("gpx")
+        try:
+            self.put_stale(case, path, "gpx")
+            self.lib("TrackWriter.writeToGpx(collection)", self.TW.writeToGpx, coll, path)
+            with open(path, newline="") as fh:
+                text = fh.read()
+            head, _, body = text.partition("    <trk>\n")
+            keep = T.getReadFormat()
+            T.setReadFormat(case["rfmt"])
+            try:
+                back = self.lib("TrackReader.readFromGpx", self.TR.readFromGpx, path, srid=case["srid"])
+                read = [self.obs_rows(back[i]) for i in range(back.size())]
+            except Exception as e:
+                read = self.ekind(e)
+            finally:
+                if self.ambient:
+                    T.setReadFormat(keep)
+            return {"text": "    <trk>\n" + body, "head_ok": self.gpx_head_ok(head), "read": read, "print_fmt_restored": T.getPrintFormat() == pf0}
+        finally:
+            if os.path.exists(path):
+                os.remove(path)
+
     @staticmethod
     def gpx_head_ok(head):
         hl = head.split("\n")
@@ -1044,8 +1281,11 @@ class P(Prop):
             return self.impl_csv_collection(case)
         path = self.tmpfile("csv")
         try:
+            self.put_stale(case, path, "csv")
             try:
-                if case.get("front") == "writeToCsv":
+                if case.get("front") == "defaults":
+                    self.lib("TrackWriter.writeToFile(track, path)", self.TW.writeToFile, trk, path)
+                elif case.get("front") == "writeToCsv":
                     from tracklib.io import TrackFormat
                     tf = TrackFormat({"ext": "CSV", "id_E": ids["E"], "id_N": ids["N"], "id_U": ids["U"], "id_T": ids["T"], "separator": case["sep"], "header": case["h"]})
                     self.lib("TrackWriter.writeToCsv", self.TW.writeToCsv, trk, path, tf)
@@ -1094,6 +1334,7 @@ class P(Prop):
         d = tempfile.mkdtemp(prefix="c13c_")
         try:
             tf = TrackFormat({"ext": "CSV", "id_E": ids["E"], "id_N": ids["N"], "id_U": ids["U"], "id_T": ids["T"], "separator": case["sep"], "header": case["h"]})
+            self.put_stale(case, os.path.join(d, "track_output_0.csv"), "csv")
             try:
                 self.lib("TrackWriter.writeToCsv(collection)", self.TW.writeToCsv, coll, d, tf)
             except Exception as e:
@@ -1113,7 +1354,13 @@ class P(Prop):
                     files.append({"text": text, "read": self.obs_rows(back)})
                 except Exception as e:
                     files.append({"text": text, "read": self.ekind(e)})
-            return {"text": files[0]["text"], "read": files[0]["read"], "others": files[1:], "nfiles": len(os.listdir(d))}
+            # the directory read: readFromCsv(<directory>) reads every file of the listing
+            try:
+                cb = self.lib("TrackReader.readFromCsv(directory)", self.TR.readFromCsv, d, ids["E"], ids["N"], ids["U"], ids["T"], case["sep"], h=case["hdrR"], srid=case["srid"])
+                dirread = [self.obs_rows(cb[i]) for i in range(cb.size())]
+            except Exception as e:
+                dirread = self.ekind(e)
+            return {"text": files[0]["text"], "read": files[0]["read"], "others": files[1:], "nfiles": len(os.listdir(d)), "dir": dirread}
         finally:
             shutil.rmtree(d, True)
 
@@ -1130,6 +1377,7 @@ class P(Prop):
                 trk.setObsAnalyticalFeature(nm, i, af_py(case["afs"][i][j]))
         path = self.tmpfile("gpx")
         try:
+            self.put_stale(case, path, "gpx")
             if "af_names" in case:
                 self.lib("TrackWriter.writeToGpx(af=True)", self.TW.writeToGpx, trk, path, af=True)
             else:
@@ -1168,6 +1416,7 @@ class P(Prop):
                         self.Node(e["tgt"], C(cval(g[-1][0], q), cval(g[-1][1], q), 0.0)))
         path = self.tmpfile("csv")
         try:
+            self.put_stale(case, path, "net")
             ret = self.lib("NetworkWriter.writeToCsv", self.NW.writeToCsv, net, path, separator=case["sep"], h=case["h"])
             with open(path, newline="") as fh:
                 text = fh.read()
@@ -1200,6 +1449,41 @@ class P(Prop):
             read = self.ekind(e)
         return {"text": text, "read": read}
 
+    @staticmethod
+    def wktfile_cols(case, uid, tid, w):
+        cols = ["", "", ""]
+        cols[case["pw"]], cols[case["pu"]], cols[case["pt"]] = w, uid, tid
+        return cols
+
+    def impl_wktfile(self, case):
+        lines = []
+        if case["hdr"]:
+            lines.append(case["sep"].join(self.wktfile_cols(case, "user", "track", "wkt")))
+        for tr in case["tracks"]:
+            trk = self.Track([self.Obs(self.Coords["ENU"](float(p[0]), float(p[1]), 0.0), self.ObsTime()) for p in tr["pts"]])
+            w = self.lib("Track.toWKT", trk.toWKT)
+            lines.append(case["sep"].join(self.wktfile_cols(case, tr["uid"], tr["tid"], '"' + w + '"' if case["quoted"] else w)))
+            if case["blank"]:
+                lines.append("")
+        text = "".join(l + "\n" for l in lines)
+        path = self.tmpfile("wkt")
+        try:
+            with open(path, "w", newline="") as fh:
+                fh.write(text)
+            try:
+                back = self.lib("TrackReader.readFromWkt", self.TR.readFromWkt, path, case["pw"], case["iu"], case["it"], separator=case["sep"], h=case["hdrR"],
+                                doublequote=bool(case["dq"]))
+                read = [{"uid": str(back[i].uid) if case["iu"] >= 0 else None, "tid": str(back[i].tid) if case["it"] >= 0 else None,
+                         "pts": [[float(o.position.getX()), float(o.position.getY()), float(o.position.getZ())] for o in back[i]]} for i in range(back.size())]
+            except BaseException as e:
+                if isinstance(e, (KeyboardInterrupt, SystemExit)):
+                    raise
+                read = self.ekind(e)
+            return {"text": text, "read": read}
+        finally:
+            if os.path.exists(path):
+                os.remove(path)
+
     def impl_wktp(self, case):
         try:
             back = self.lib("TrackReader.parseWkt", self.TR.parseWkt, case["text"])
@@ -1227,8 +1511,16 @@ class P(Prop):
             return ["C13.fix %d %d %d" % (case["w"], case["d"], n) for n in case["ns"]]
         if k == "time":
             return ["C13.time %s %s %s" % (hx(case["pfmt"]), hx(case["rfmt"]), " ".join(map(str, case["t"])))]
+        if k == "gpxcoll":
+            return ["C13.gpxc %d %s %s %s" % (case["srid"] == "GEO", hx(case["rfmt"]), ",".join(hx(str(tr["tid"])) for tr in case["tracks"]),
+                                              "|".join(";".join(self.row_tok(r, case["q"], 8) for r in tr["rows"]) or "_" for tr in case["tracks"]))]
         if k == "csv" and case.get("more"):
-            return [l for rows in [case["rows"]] + case["more"] for l in self.requests(dict({kk: v for kk, v in case.items() if kk != "more"}, rows=rows))]
+            ids = case["ids"]
+            d = 10 if case["srid"] == "GEO" else 3
+            trks = "|".join(";".join(self.row_tok(r, case["q"], d) for r in rows) or "_" for rows in [case["rows"]] + case["more"])
+            return ([l for rows in [case["rows"]] + case["more"] for l in self.requests(dict({kk: v for kk, v in case.items() if kk != "more"}, rows=rows))]
+                    + ["C13.csvdir %d %d %d %d %d %d %d %d %s %s %s %s" % (case["srid"] == "GEO", ids["E"], ids["N"], ids["U"], ids["T"], ord(case["sep"]), case["h"],
+                                                                          case["hdrR"], hx(case["pfmt"]), hx(case["rfmt"]), trks, hx(case["srid"]))])
         if k == "csv":
             ids = case["ids"]
             geo = case["srid"] == "GEO"
@@ -1239,7 +1531,7 @@ class P(Prop):
             return ["C13.csv %d %d %d %d %d %d %d %d %s %s %d %s %s %s %d" % (geo, ids["E"], ids["N"], ids["U"], ids["T"], ord(case["sep"]), case["h"],
                                                                              case["hdrR"], hx(case["pfmt"]), hx(case["rfmt"]), naf, rows,
                                                                              hx(case["srid"]), names,
-                                                                             2 if case.get("front") == "writeToCsv" else bool(case.get("read_all")))]
+                                                                             3 if case.get("front") == "defaults" else 2 if case.get("front") == "writeToCsv" else bool(case.get("read_all")))]
         if k == "gpx" and "af_names" in case:
             rows = ";".join(self.row_tok(r, case["q"], 8, case["afs"][i]) for i, r in enumerate(case["rows"]))
             return ["C13.gpxaf %d %s %s %d %s %s" % (case["srid"] == "GEO", hx(case["rfmt"]), hx(str(case["tid"])), len(case["af_names"]),
@@ -1248,13 +1540,22 @@ class P(Prop):
             rows = ";".join(self.row_tok(r, case["q"], 8) for r in case["rows"])
             return ["C13.gpx %d %s %s %s" % (case["srid"] == "GEO", hx(case["rfmt"]), hx(str(case["tid"])), rows)]
         if k == "net":
+            d, toks = snum_common([v for e in case["edges"] for p in e["geom"] for v in p[:2]], case["q"])
+            it = iter(toks)
             es = ";".join("%s,%s,%s,%d,%s" % (hx(e["id"]), hx(e["src"]), hx(e["tgt"]), e["orient"],
-                                              "|".join("%d:%d" % (p[0], p[1]) for p in e["geom"])) for e in case["edges"])
-            return ["C13.net %d %d %d %d %d %s" % (ord(case["sep"]), case["h"], case["hdrR"], case["q"], case["posdir"], es)]
+                                              "|".join("%s:%s" % (next(it), next(it)) for p in e["geom"])) for e in case["edges"])
+            return ["C13.net %d %d %d %d %d %s" % (ord(case["sep"]), case["h"], case["hdrR"], d, case["posdir"], es)]
         if k == "wkt":
-            return ["C13.wkt %d %s" % (case["q"], "|".join("%d:%d" % (p[0], p[1]) for p in case["pts"]))]
+            d, toks = snum_common([v for p in case["pts"] for v in p[:2]], case["q"])
+            return ["C13.wkt %d %s" % (d, "|".join("%s:%s" % (toks[2 * i], toks[2 * i + 1]) for i in range(len(case["pts"]))))]
         if k == "wktp":
             return ["C13.wktparse %s" % hx(case["text"])]
+        if k == "wktfile":
+            d, toks = snum_common([v for tr in case["tracks"] for p in tr["pts"] for v in p[:2]], None)
+            it = iter(toks)
+            trks = ";".join("%s,%s,%s" % (hx(tr["uid"]), hx(tr["tid"]), "|".join("%s:%s" % (next(it), next(it)) for p in tr["pts"])) for tr in case["tracks"])
+            return ["C13.wktfile %d %d %d %d %d %d %d %d %d %d %d %d %s" % (ord(case["sep"]), case["hdr"], case["hdrR"], case["quoted"], case["dq"], case["blank"],
+                                                                          case["pw"], case["pu"], case["pt"], case["iu"], case["it"], d, trks)]
 
     @staticmethod
     def rrow(tok):
@@ -1302,18 +1603,34 @@ class P(Prop):
         if k == "time":
             h, b = replies[0].split(" ")
             return {"text": unhx(h), "back": "value" if b == "none" else [int(v) for v in b.split(",")]}
+        if k == "gpxcoll":
+            return self.decode({"kind": "gpx"}, replies)
         if k == "csv" and case.get("more"):
             one = {kk: v for kk, v in case.items() if kk != "more"}
-            ds = [self.decode(dict(one, rows=rows), [r]) for rows, r in zip([case["rows"]] + case["more"], replies)]
+            ds = [self.decode(dict(one, rows=rows), [r]) for rows, r in zip([case["rows"]] + case["more"], replies[:-1])]
             if any("werr" in d for d in ds):
                 return next(d for d in ds if "werr" in d)
-            return {"text": ds[0]["text"], "read": ds[0]["read"], "others": [{"text": d["text"], "read": d["read"]} for d in ds[1:]]}
+            w, _, r = replies[-1].partition(" R:")
+            if r.startswith("err:"):
+                dirread = r[4:]
+            else:
+                dirread = [([] if t == "_" else [self.rrow(x) for x in t.split(";")]) for t in r[3:].split("|")] if r[3:] else []
+            return {"text": ds[0]["text"], "read": ds[0]["read"], "others": [{"text": d["text"], "read": d["read"]} for d in ds[1:]],
+                    "dir": dirread, "dir_texts": [unhx(t) for t in w[2:].split("|")]}
         if k == "wktp":
             r = replies[0]
             return {"read": r[4:] if r.startswith("err:") else [self.v3(t) for t in r[3:].split("|")]}
         text, r = self.split_wr(replies[0])
         if text is None:
             return {"werr": r.split(" ")[0][5:]}
+        if k == "wktfile":
+            if r.startswith("err:"):
+                return {"text": text, "read": r[4:]}
+            read = []
+            for t in ([] if r[3:] in ("", "_") else r[3:].split(";")):
+                u, ti, g = t.split(",")
+                read.append({"uid": None if u == "-" else unhx(u), "tid": None if ti == "-" else unhx(ti), "pts": [] if g == "" else [self.v3(x) for x in g.split("|")]})
+            return {"text": text, "read": read}
         if r.startswith("err:"):
             read = r[4:]
         else:
@@ -1361,6 +1678,8 @@ class P(Prop):
         if k == "reread" and "err" not in impl_out:
             mine = {"text": impl_out["text"], "backs": impl_out["backs"]}
             return None if mine == model_out else "impl=%s model=%s" % (str(mine)[:300], str(model_out)[:300])
+        if k == "gpxcoll" and "err" not in impl_out:
+            return self.compare({"kind": "gpx"}, impl_out, model_out)
         if k == "gpxdir" and "err" not in impl_out:
             if len(impl_out["files"]) != len(model_out["files"]):
                 return "number of files"
@@ -1390,6 +1709,16 @@ class P(Prop):
                 return "file track_output_%d.csv: impl=%s model=%s" % (j + 1, str(fi)[:300], str(fm)[:300])
         if len(impl_out.get("others", [])) != len(model_out.get("others", [])):
             return "number of files written for the collection"
+        if "dir" in model_out:
+            # the directory read: os.listdir's order is the file system's; the model lists the files in the order written
+            if model_out["dir_texts"] != [impl_out["text"]] + [o["text"] for o in impl_out["others"]]:
+                return "writeToCsvColl texts differ from the files written"
+            a, b = impl_out.get("dir"), model_out["dir"]
+            if isinstance(a, str) or isinstance(b, str):
+                if a != b:
+                    return "directory read: impl=%s model=%s" % (str(a)[:300], str(b)[:300])
+            elif sorted(repr([[v + 0.0 for v in r[:3]] + list(r[3:]) for r in t]) for t in a) != sorted(repr([[v + 0.0 for v in r[:3]] + list(r[3:]) for r in t]) for t in b):
+                return "directory read (as a multiset of tracks): impl=%s model=%s" % (str(a)[:300], str(b)[:300])
         if impl_out.get("af") != model_out.get("af"):
             return "read_all features: impl=%s model=%s" % (str(impl_out.get("af"))[:300], str(model_out.get("af"))[:300])
         for j, rr in enumerate(impl_out.get("rereads", [])):
@@ -1406,6 +1735,8 @@ class P(Prop):
             return "column ids are not a permutation of 0..k-1"
         if case["hdrR"] != case["h"]:
             return "reader header differs from the writer's h"
+        if case.get("front") == "defaults" and (ids != {"E": 0, "N": 1, "U": -1, "T": -1} or case["sep"] != "," or case["h"] != 0):
+            return "writeToFile(track, path) writes its default format: the matching read is readFromCsv(path, 0, 1)"
         if case["h"] not in (0, 1):
             return "the writer's h is a flag (0 or 1)"
         if case["rfmt"] != case["pfmt"] or not fmt_is_lossless(case["pfmt"]):
@@ -1495,6 +1826,21 @@ class P(Prop):
                     return "the text %r is what format %r prints for %s; read under %r (after reads under %s) it comes back as %s" % (
                         out["text"], f, want, f, case["fmts"][:case["fmts"].index(f)], back)
             return None
+        if k == "gpxcoll":
+            if not fmt_is_lossless(case["rfmt"].rstrip("Z")) or not case["rfmt"].startswith(ISO_FMT):
+                return None
+            rd = out["read"]
+            if isinstance(rd, str):
+                return "GPX collection: reading the written file raised %s" % rd
+            if len(rd) != len(case["tracks"]):
+                return "GPX collection: %d tracks written to one file, %d read back" % (len(case["tracks"]), len(rd))
+            if not out["print_fmt_restored"]:
+                return "GPX writer did not restore the print format"
+            for tr, got in zip(case["tracks"], rd):
+                m = self.check_rows(tr["rows"], got, case["q"], case["srid"], "gpx", True, True, "GPX collection, track %s" % tr["tid"])
+                if m:
+                    return m
+            return None
         if k == "gpxdir":
             if out["nfiles"] != len(case["tracks"]):
                 return "GPX directory: %d tracks written, %d files found" % (len(case["tracks"]), out["nfiles"])
@@ -1536,6 +1882,19 @@ class P(Prop):
                                         "CSV collection file track_output_%d.csv sep %r h=%d ids %s" % (j + 1, case["sep"], case["h"], ids))
                     if m:
                         return m
+            if case.get("more"):
+                # read back through the directory: the same tracks, in the order of the listing (any order)
+                dr = out.get("dir")
+                if isinstance(dr, str):
+                    return "readFromCsv(directory) raised %s" % dr
+                left = [case["rows"]] + case["more"]
+                if len(dr) != len(left):
+                    return "readFromCsv(directory): %d tracks written, %d read back" % (len(left), len(dr))
+                for got in dr:
+                    hit = next((i for i, rows in enumerate(left) if self.check_rows(rows, got, case["q"], case["srid"], "csv", ids["U"] != -1, ids["T"] != -1, "") is None), None)
+                    if hit is None:
+                        return "readFromCsv(directory): the track read back as %s is none of the tracks written" % str(got)[:300]
+                    left.pop(hit)
             for j, rd in enumerate([out["read"]] + out.get("rereads", [])):
                 m = self.check_rows(case["rows"], rd, case["q"], case["srid"], "csv", ids["U"] != -1, ids["T"] != -1,
                                     "CSV %s sep %r h=%d ids %s time format %r%s" % (case["srid"], case["sep"], case["h"], ids, case["pfmt"],
@@ -1582,6 +1941,25 @@ class P(Prop):
             if gn != wn:
                 return "network: nodes written %s read back %s" % (wn, gn)
             return None
+        if k == "wktfile":
+            # the matching call: the header count of the file, columns read where they are; a bare WKT text needs a separator that
+            # does not occur in it
+            if case["hdrR"] != case["hdr"]:
+                return None
+            if not case["quoted"] and case["sep"] in ", ()e+-.0123456789LINESTRG":
+                return None
+            rd = out["read"]
+            if isinstance(rd, str):
+                return "WKT file: reading the file %r raised %s" % (out["text"], rd)
+            if len(rd) != len(case["tracks"]):
+                return "WKT file: %d tracks written, %d read back" % (len(case["tracks"]), len(rd))
+            for i, (tr, g) in enumerate(zip(case["tracks"], rd)):
+                want = [[float(p[0]), float(p[1])] for p in tr["pts"]]
+                if [p[:2] for p in g["pts"]] != want:
+                    return "WKT file: track %d exported %s, read back %s" % (i, want, [p[:2] for p in g["pts"]])
+                if (case["iu"] >= 0 and g["uid"] != tr["uid"]) or (case["it"] >= 0 and g["tid"] != tr["tid"]):
+                    return "WKT file: track %d written for user %r / track id %r, read back %r / %r" % (i, tr["uid"], tr["tid"], g["uid"], g["tid"])
+            return None
         if k == "wkt":
             rd = out["read"]
             if isinstance(rd, str):
@@ -1598,6 +1976,8 @@ class P(Prop):
             if case["ids"]["T"] != -1 and case["sep"] in case["pfmt"]:
                 return "csv-separator-in-timestamp"
         if k == "gpx" and case["srid"] != "GEO" and any(r[2] != 0 for r in case["rows"]):
+            return "gpx-elevation-non-geo"
+        if k == "gpxcoll" and case["srid"] != "GEO" and any(r[2] != 0 for tr in case["tracks"] for r in tr["rows"]):
             return "gpx-elevation-non-geo"
         return None
 
@@ -1623,7 +2003,7 @@ class P(Prop):
         if k == "reread" and len(case["fmts"]) > 1:
             for i in range(len(case["fmts"])):
                 yield dict(case, fmts=case["fmts"][:i] + case["fmts"][i + 1:])
-        if k == "gpxdir":
+        if k in ("gpxdir", "gpxcoll"):
             if len(case["tracks"]) > 1:
                 for i in range(len(case["tracks"])):
                     yield dict(case, tracks=case["tracks"][:i] + case["tracks"][i + 1:])
@@ -1639,6 +2019,8 @@ class P(Prop):
                 yield c
         if k in ("csv", "gpx") and case.get("af_names"):
             c = dict(case); c.pop("af_names"); c.pop("afs"); yield c
+        if k in ("csv", "gpx", "gpxcoll", "net") and case.get("stale"):
+            c = dict(case); c.pop("stale"); yield c
         if k == "csv":
             for key in ("nread", "mid_print", "more"):
                 if key in case:
@@ -1665,6 +2047,16 @@ class P(Prop):
                     es = [dict(x) for x in case["edges"]]
                     es[i]["geom"] = [e["geom"][0], e["geom"][-1]]
                     yield dict(case, edges=es)
+        if k == "wktfile":
+            if len(case["tracks"]) > 1:
+                for i in range(len(case["tracks"])):
+                    yield dict(case, tracks=case["tracks"][:i] + case["tracks"][i + 1:])
+            for i, tr in enumerate(case["tracks"]):
+                if len(tr["pts"]) > 1:
+                    for j in range(len(tr["pts"])):
+                        yield dict(case, tracks=case["tracks"][:i] + [dict(tr, pts=tr["pts"][:j] + tr["pts"][j + 1:])] + case["tracks"][i + 1:])
+            if case["blank"]:
+                yield dict(case, blank=False)
         if k == "wkt" and len(case["pts"]) > 1:
             for i in range(len(case["pts"])):
                 yield dict(case, pts=case["pts"][:i] + case["pts"][i + 1:])
@@ -1675,6 +2067,8 @@ class P(Prop):
 
     def mutate(self, case, rng):
         k = case["kind"]
+        if k == "csv" and case.get("front") == "defaults":
+            return      # the default format is what it is: E column 0, N column 1, ',', no header
         if k == "csv":
             for ids in rng.sample(self.layouts(), 6):
                 yield dict(case, ids=ids)
